@@ -21,6 +21,8 @@ def main():
     ctx = common.Ctx(a.prop, a.tier, seed)
     os.environ["HOME"] = os.path.join(ctx.work, "home")
     os.chdir(ctx.work)
+    import logging
+    logging.disable(logging.CRITICAL)   # the code under test logs through avocado's loggers
     mod = importlib.import_module(f"harness.props.{a.prop.lower()}")
     replay = json.load(open(a.replay)) if a.replay else None
     try:
